@@ -5,9 +5,9 @@ CONSTANTS
   Creds = {"right", "wrongPw", "otherUser", "malformed", "empty"}
   BindRes = {"ra", "rv"}
   Kinds = {"message", "presence", "iq"}
-  Froms = {"absent", "own", "ownBare", "victim", "other"}
+  Froms = {"absent", "own", "ownBare", "victim", "other", "ownOtherRes", "ownSibling", "ownCase", "ownSlash", "ownPrefix", "ownDomain", "ownLookalike"}
   Tos = {"victimBare", "victimFull", "domain", "absent"}
-  Stanzas <- AllStanzas
+  Stanzas <- McStanzas
   MaxPending = 2
   MaxHist = 99
 INVARIANTS TypeOK BindOnlyAuthed AuthedOnlyApproved ApprovedSound NeverTheVictim RoutesOwn
